@@ -21,9 +21,9 @@ Lemma rounds_cost_unfold : forall c r R, r < R ->
 Proof. intros c r R H. replace (R - r) with (S (R - S r)) by lia. reflexivity. Qed.
 
 Lemma measure_step : forall c st l st',
-  Inv c st -> step c st l = Some st' -> measure c st' < measure c st.
+  fixed_code c -> Inv c st -> step c st l = Some st' -> measure c st' < measure c st.
 Proof.
-  intros c st l st' [L _] S. apply step_cases in S.
+  intros c st l st' GD [L _] S. apply (step_cases _ _ _ _ (proj2 GD)) in S.
   destruct S as [G R|G R|k G F X|G F X|i th th' b' G N TC]; unfold measure; cbn [gp round ths]; rewrite G; try lia.
   - rewrite (rounds_cost_unfold _ _ _ R). unfold round_cost.
     rewrite map_map.
@@ -35,15 +35,15 @@ Proof.
 Qed.
 
 Lemma exec_inv : forall c st tr st',
-  1 <= nthreads c -> guard c = true -> exec_from c st tr st' -> Inv c st -> Inv c st'.
+  1 <= nthreads c -> fixed_code c -> exec_from c st tr st' -> Inv c st -> Inv c st'.
 Proof. intros c st tr st' T1 GD E. induction E; auto. intros. apply IHE. eapply inv_step; eauto. Qed.
 
 Lemma exec_bound : forall c st tr st',
-  1 <= nthreads c -> guard c = true -> exec_from c st tr st' -> Inv c st ->
+  1 <= nthreads c -> fixed_code c -> exec_from c st tr st' -> Inv c st ->
   length tr + measure c st' <= measure c st.
 Proof.
   intros c st tr st' T1 GD E. induction E; intros I; cbn [length]; [lia|].
-  pose proof (measure_step _ _ _ _ I H).
+  pose proof (measure_step _ _ _ _ GD I H).
   assert (Inv c st') by (eapply inv_step; eauto). specialize (IHE H1). lia.
 Qed.
 
@@ -120,7 +120,7 @@ Proof.
 Qed.
 
 Lemma tf_ok_tcase : forall c r i th b th' b',
-  guard c = true ->
+  fixed_code c ->
   thread_ok (ssize c r) (shp c) (bgen b) th ->
   tcase c r i th b th' b' -> tf_ok c r i th -> tf_ok c r i th'.
 Proof.
@@ -137,7 +137,7 @@ Proof.
   - intros p Hp U. destruct (Nat.eq_dec p (pc th)) as [->|NEq].
     + apply userpos_nowait in U. congruence.
     + apply T; auto. lia.
-  - rewrite GD. eapply thread_faults_true; eauto.
+  - rewrite (proj1 GD). eapply thread_faults_true; eauto.
   - intros p Hp U. destruct (Nat.eq_dec p (pc th)) as [->|NEq]; auto.
     apply T; auto. lia.
 Qed.
@@ -146,9 +146,9 @@ Lemma finv_init : forall c, FInv c (init c).
 Proof. intros c. split; cbn; [intros; lia|lia]. Qed.
 
 Lemma finv_step : forall c st l st',
-  guard c = true -> Inv c st -> FInv c st -> step c st l = Some st' -> FInv c st'.
+  fixed_code c -> Inv c st -> FInv c st -> step c st l = Some st' -> FInv c st'.
 Proof.
-  intros c st l st' GD [L K] [P Q] S. apply step_cases in S.
+  intros c st l st' GD [L K] [P Q] S. apply (step_cases _ _ _ _ (proj2 GD)) in S.
   destruct S as [G R|G R|k G F X|G F X|i th th' b' G N TC]; rewrite G in Q;
     unfold FInv; cbn [gp round ths bar].
   - split; auto. split; auto. intros i th Hi.
@@ -262,7 +262,7 @@ Qed.
 (** * Every maximal execution ends, with the outcome [expected] *)
 
 Theorem panic_terminates : forall c tr st,
-  1 <= nthreads c -> guard c = true ->
+  1 <= nthreads c -> fixed_code c ->
   exec_from c (init c) tr st ->
   length tr <= measure c (init c) /\
   ((forall l, step c st l = None) -> gp st = GEnd (option_map snd (expected c))).
